@@ -178,6 +178,21 @@ func regionOf(der []byte, leaf *x509.Certificate, which string) (start, n int) {
 // happens to hold that bit.  Which "key": character a.N (modulo the length) of
 // the key section, its 6-bit value xor a.Mask.
 func (s *sim) damageCache(a Action) {
+	if s.cacheChain {
+		// C08 speaks of the file a run created; a damaged file the operator
+		// installed is judged only for C05 (advertised = served)
+		s.cachePin = ""
+		// nothing in the program can tell that such a file is damaged, so what
+		// a boot makes of it depends on the certificate's own bytes: only the
+		// framing of the public key info (the same for every key of the kind)
+		// is touched, never the random part
+		if a.Which != "spki" {
+			s.obs("operator-installed cache: only the framing of the key info is damaged")
+			return
+		}
+		a.N %= 26
+		s.probes["operator_installed_cache_damaged"]++
+	}
 	if !s.cacheBad || s.cacheOrig == nil {
 		b, err := os.ReadFile(s.cachePath)
 		if err != nil {
